@@ -770,6 +770,7 @@ fn process_fn(ctx: &mut Ctx, d: &FnDirective, assume_default: bool, tfile: &str)
             let words: Vec<&str> = a.split_whitespace().collect();
             let lost = |what: &str| -> ! { fail(format!("{}:{}: lost anchor `{}` in {} ({})", tfile, d.tline, a, d.qual, what)) };
             match words[0] {
+                "attr" => ed.insert(fstart, format!("{}    ", t), 0, a),
                 "sig" => ed.insert(block_open, format!("\n{}    ", t), 0, a),
                 "entry" => ed.insert(block_open + 1, format!("\n{}", t.trim_end_matches('\n')), 0, a),
                 "loop" => {
